@@ -80,6 +80,13 @@ claim("C12", "branch-effect rules of Close/closeTransport, range-callback rule f
       "Static rules: a graceful Close transitions to closing, then waits for drain when the buffer is non-empty and otherwise closes the transport with a callback that reports 'forced close' (Discard only on the discard edge); server shutdown ranges over all clients with Close(true) and never stops early, is wired to the HTTP server's close event, which is emitted before the listeners shut down; polling releases a pending poll with close/noop or a bounded timer on every DoClose branch; the close callback precedes connection teardown. websocket/webTransport DoClose have no ordering edge to the in-flight send goroutine (two listed findings: send-then-close can lose the last batch). On-wire order of last data versus close and the 30 s / heartbeat bounds as times are not decided.",
       TB, "DESIGN.md §3 C12")
 
+claim("C16", "value identity of the encoded batch via reaching definitions, header table by edge dominance (incl. type-switch arms), compression gate conjunction by edge dominance, coding-token ↔ codec-package table over resolved callees, taint rule for the JSONP head, construction rule for the JSONP body",
+      "Static rules over transports/polling.go and polling-jsonp.go: EncodePayload receives the batch itself (extended only by the transport's own CLOSE), v3 with SupportsBinary; the encoded buffer reaches DoWrite unchanged; Content-Type is text iff *StringBuffer; every respond announces Itoa(x.Len()) of the buffer it sends; Content-Encoding is set only before the compressed respond, with the coding given to compress; compression needs HttpCompression ∧ options.Compress ∧ Len ≥ Threshold ∧ a coding from Accept-Encoding; token→codec table gzip/zlib(deflate)/brotli/zstd with offered tokens = implemented tokens and writers closed; the JSONP head reaches the response only through the non-digit filter and the body is head + one default-escaped JSON string + foot. Decodability by an independent codec, Accept-Encoding q-values/token boundaries and JSON escaping itself (stdlib) are not decided.",
+      TB, "DESIGN.md §3 C16")
+claim("C17", "data-dependence of the cookie value on the session id (reaching definitions across the closure), wrong-variable contradiction rule for the first-response test, once/must-precede rules for the headers events, constant tables for cookie and CORS defaults, CORS branch table by edge dominance, preflight path rule, middleware order rule",
+      "Static rules over engine/base-server.go, types/cors.go, transports/polling.go: Set-Cookie is String() of a per-session copy whose Value is this handshake's id and the shared cookie is never written; Set-Cookie and initial_headers are licensed by !req.Query().Has(\"sid\") on the listener's own request argument; headers is emitted once per 200 response and forwarded once by the server after initial_headers; cookie defaults io,/ ,HttpOnly,Lax only when configured; configureOrigin's ACAO/Vary table, isOriginAllowed's four kinds with default false, credentials iff configured; a preflight is answered once with the configured status and never reaches next unless PreflightContinue, other requests call next(nil) once; CORS is registered before Init and middlewares run in registration order stopping on error. Concrete header bytes for all option shapes and Vary merging are not decided.",
+      TB, "DESIGN.md §3 C17")
+
 UNDER_CONSTRUCTION = "static rule set designed in DESIGN.md §3 but its checker is not built yet in this revision; not claimed until it is"
 
 def main():
